@@ -59,7 +59,38 @@ def judge_pairs(chk, cells, results, label, check_mse=True, extra_tags=None):
 
 
 def replay_cell(chk, path):
-    sc = json.load(open(path))["scenario"]
-    log("frequency cell: %s" % json.dumps(sc)[:3000])
-    log("re-run the check with VERIF_SEED=%s to re-measure this cell on the current tree" % sc.get("seed"))
-    return 1
+    """the cell of the scenario is measured again (same seed, same number of trials) and judged by the same rule"""
+    doc = json.load(open(path))
+    sc = doc["scenario"]
+    rec = sc.get("cell") or {}
+    if sc.get("kind") != "freq-cell" or not sc.get("groups"):
+        log("frequency cell: %s" % json.dumps(sc)[:3000])
+        log("re-run the check with VERIF_SEED=%s to re-measure this cell on the current tree" % sc.get("seed"))
+        return 1
+    shape = rec.get("shape") or ""
+    cell = dict(kind=rec["kind"], m=rec["m"], groups=sc["groups"], shape=shape, oracle=rec["oracle"], trials=rec["trials"])
+    if "+reuse" in shape:
+        cell["reuse"] = True
+    if shape.startswith("one-bit-twins-"):
+        cell["ids"] = "flip" + shape.rsplit("-", 1)[1]
+    elif "+idhash-low32" in shape:
+        cell["ids"] = "low32"
+    elif "+idhash" in shape:
+        cell["ids"] = "paired32" if rec["kind"].endswith("no32") else "paired"
+    build_harness("fq")
+    chk.seed = sc.get("seed", chk.seed)
+    res = run_pairs(chk, [cell], "replay")
+    n, mean, var = stats.hist_moments(res[0]["hist"], cell["m"])
+    eps = stats.bernstein_radius(n, var, DELTA)
+    g = [(k / cell["m"] - cell["oracle"]) ** 2 for k in range(cell["m"] + 1)]
+    mg = sum(gk * h for gk, h in zip(g, res[0]["hist"])) / n if n else 0.0
+    vg = sum((gk - mg) ** 2 * h for gk, h in zip(g, res[0]["hist"])) / (n - 1) if n > 1 else 0.0
+    epsg = stats.bernstein_radius(n, vg, DELTA)
+    bound = cell["oracle"] * (1 - cell["oracle"]) / cell["m"]
+    what = doc.get("tags", {}).get("what")
+    log("cell %s m=%d shape=%s: oracle %.6f, mean %.6f +- %.6f over %d trials, mse %.6f (bound %.6f), panics %d"
+        % (cell["kind"], cell["m"], shape, cell["oracle"], mean, eps, n, mg, bound, res[0]["panics"]))
+    bad = res[0]["panics"] > 0 or abs(mean - cell["oracle"]) > eps or (what == "mse" and mg - epsg > bound + 1e-12)
+    if bad:
+        log("VIOLATION property=%s replay=%s" % (chk.pid, path))
+    return 1 if bad else 0
